@@ -5,7 +5,8 @@ CFG = dict(
     rule="generated source configurations run through the REAL numbering code: 25% HISTORIES of 2..6 steps on ONE source object "
          "(Lancero: reconfigure with other column/card separation, first row, active-card subset/order/extra card, row count, a wholly "
          "different configuration, the same configuration again, or PrepareChannels again without reconfiguring; Abaco/simulated/ROACH "
-         "re-prepared with other layouts / channel counts) with the tables judged after EVERY step; 50% single Lancero (0..12 faked cards with distinct device numbers in "
+         "re-prepared with other layouts / channel counts; simulated sources also get Configure requests that are accepted, refused at once, or "
+         "refused for the buffer length AFTER the channel count was stored — shrink, grow, never configured — followed by Sample+PrepareChannels) with the tables judged after EVERY step; 50% single Lancero (0..12 faked cards with distinct device numbers in "
          "sorted or shuffled order, 0..10 columns, 0..256 rows, equal or mixed geometries, first-row numbers incl. 0/negative/1e6, column and card "
          "separations 0 / exactly large enough / one too small / larger / tiny / negative / random; PrepareChannels called twice without "
          "reconfiguring, so the state a rejection leaves behind is exercised), 20% Abaco (1..12 channel groups announced by sampled packets "
@@ -66,4 +67,6 @@ THEOREMS = [
     ("DastardV.Props.C19", "DastardV.C19.fits16_iff"),
     ("DastardV.Props.C19", "DastardV.C19.C19_groups_history_independent"),
     ("DastardV.Props.C19", "DastardV.C19.C19_history_independent"),
+    ("DastardV.Props.C19", "DastardV.C19.C19_generic_history_independent"),
+    ("DastardV.Props.C19", "DastardV.C19.C19_generic_start_consistent"),
 ]
